@@ -6,6 +6,7 @@ const HelpersSource = `package main
 import (
 	"context"
 	"errors"
+	"fmt"
 	"io"
 
 	"github.com/a-h/templ"
@@ -27,6 +28,26 @@ func strOrErr(s string, fail bool) (string, error) {
 	}
 	return s, nil
 }
+
+// Card and Box are hand-written component providers: @Card{Value: s}.View() and
+// @Box[string]{Value: s}.View() are component calls on (generic) struct literals.
+type Card struct{ Value string }
+
+func (c Card) View() templ.Component { return tagged("i", c.Value) }
+
+type Box[T any] struct{ Value T }
+
+func (b Box[T]) View() templ.Component { return tagged("b", fmt.Sprint(b.Value)) }
+
+func tagged(tag, text string) templ.Component {
+	return templ.ComponentFunc(func(ctx context.Context, w io.Writer) error {
+		_, err := io.WriteString(w, "<"+tag+">"+templ.EscapeString(text)+"</"+tag+">")
+		return err
+	})
+}
+
+// comps is indexed by @comps[0] / @comps[1].
+var comps = []templ.Component{tagged("em", "zero"), tagged("em", "one")}
 
 // marker is the component passed as the c parameter.
 var marker = templ.ComponentFunc(func(ctx context.Context, w io.Writer) error {
